@@ -16,7 +16,7 @@ from vlib.check import Machinery, VERIF
 TLA = os.path.join(VERIF, "tla")
 U = math.pi / 2            # one quarter turn
 DIS = {"constraint": 1 << 0, "equality": 1 << 1, "frictionloss": 1 << 2, "limit": 1 << 3, "contact": 1 << 4,
-       "spring": 1 << 5, "damper": 1 << 6, "gravity": 1 << 7, "actuation": 1 << 11, "eulerdamp": 1 << 15}
+       "spring": 1 << 5, "damper": 1 << 6, "gravity": 1 << 7, "actuation": 1 << 11, "eulerdamp": 1 << 15, "island": 1 << 18}
 ENBL = {"energy": 1 << 1, "fwdinv": 1 << 2, "invdiscrete": 1 << 3, "diagexact": 1 << 5}
 INTEGRATOR = {"euler": 0, "rk4": 1, "implicit": 2, "implicitfast": 3}
 
@@ -31,52 +31,78 @@ def harness():
 _EV = re.compile(r'/\\ ev = (.*?)(?=\n/\\ [A-Za-z_]+ = |\Z)', re.S)
 
 
-def _ev_of(block):
-    m = _EV.search(block)
+def _ev_of(block, var="ev"):
+    rx = _EV if var == "ev" else re.compile(r'/\\ %s = (.*?)(?=\n/\\ [A-Za-z_0-9]+ = |\Z)' % var, re.S)
+    m = rx.search(block)
     if not m:
         return None
     return tlc.parse_value(m.group(1))
 
 
-def mc_models(spec, cfg, timeout=600, workers=16, want=lambda ev: ev.get("op") == "model"):
+def _take(blk, marker, with_fi):
+    if marker not in blk:
+        return None
+    ev = _ev_of(blk)
+    if ev is None or ev.get("op") != "model":
+        return None
+    if with_fi:
+        fi = _ev_of(blk, "fi")
+        if fi is None:
+            return None
+        ev = FrozenEv(ev)
+        ev["fi"] = fi
+    return ev
+
+
+class FrozenEv(dict):
+    pass
+
+
+FAST_JIT = ("-XX:TieredStopAtLevel=1",)      # short TLC runs: skip the optimising JIT tier (halves the CPU time)
+
+
+DONE = '/\\ stage = "done"'
+ENDED = '/\\ st2 = "end"'
+
+
+def mc_models(spec, cfg, timeout=600, workers=16, java_opts=(), marker=DONE, with_fi=False):
     """exhaustive TLC run with a state dump; returns (TlcResult, [ev of every finished model])"""
     meta = tlc._mk_tmp()
     try:
         dump = os.path.join(meta, "dump")
-        res = tlc.run(spec, cfg, workers=workers, args=["-dump", dump], timeout=timeout, keep_meta=meta, coverage=True)
+        res = tlc.run(spec, cfg, workers=workers, args=["-dump", dump], timeout=timeout, keep_meta=meta, coverage=False,
+                      java_opts=java_opts)
         out = []
         f = dump + ".dump" if os.path.exists(dump + ".dump") else dump
         if os.path.exists(f):
             txt = open(f).read()
             for blk in re.split(r'\nState \d+:\n', "\n" + txt):
-                if '/\\ stage = "done"' not in blk:
-                    continue
-                ev = _ev_of(blk)
-                if ev is not None and want(ev):
+                ev = _take(blk, marker, with_fi)
+                if ev is not None:
                     out.append(ev)
         return res, out
     finally:
         shutil.rmtree(meta, ignore_errors=True)
 
 
-def sim_models(spec, cfg, num, depth, seed, timeout=600, want=lambda ev: ev.get("op") == "model"):
+def sim_models(spec, cfg, num, depth, seed, timeout=600, java_opts=(), marker=DONE, with_fi=False):
     """TLC -simulate; returns (TlcResult, [ev of the last state of every behaviour that finished a model])"""
     meta = tlc._mk_tmp()
     try:
         pref = os.path.join(meta, "tr")
         res = tlc.run(spec, cfg, workers=1, simulate="file=%s,num=%d" % (pref, num), depth=depth, seed=seed,
-                      timeout=timeout, keep_meta=meta)
+                      timeout=timeout, keep_meta=meta, java_opts=java_opts)
         out = []
+        m = re.search(r'The number of states generated: (\d+)', res.out)
+        if m and not res.generated:
+            res.generated = int(m.group(1))
         for f in sorted(_glob.glob(pref + "*")):
             txt = open(f).read()
             k = txt.rfind("STATE_")
             if k < 0:
                 continue
-            blk = txt[k:]
-            if '/\\ stage = "done"' not in blk:
-                continue
-            ev = _ev_of(blk)
-            if ev is not None and want(ev):
+            ev = _take(txt[k:], marker, with_fi)
+            if ev is not None:
                 out.append(ev)
         return res, out
     finally:
@@ -125,7 +151,7 @@ def unit_of(ev, d):
 
 
 def model_lines(ev, timestep=0.25, integrator="euler", disable=(), enable=(), extra_lines=(), joint_extra=None,
-                body_extra=None):
+                body_extra=None, option_extra=""):
     """mkmodel.h description of the published model"""
     g = ev["glob"]
     dis = 0
@@ -135,7 +161,7 @@ def model_lines(ev, timestep=0.25, integrator="euler", disable=(), enable=(), ex
     for x in enable:
         en |= ENBL[x]
     L = ["option timestep=%s gravity=%s integrator=%d disableflags=%d enableflags=%d" % (
-        num(timestep), csv(g["g"]), INTEGRATOR[integrator], dis, en),
+        num(timestep), csv(g["g"]), INTEGRATOR[integrator], dis, en) + ((" " + option_extra) if option_extra else ""),
          "compiler degree=0 fusestatic=0 autolimits=1 boundmass=0 boundinertia=0"]
     ten_hinge = False
     for k, b in enumerate(ev["bodies"], start=1):
@@ -183,6 +209,9 @@ def state_lines(ev, ds=0, acc=False):
 # ----------------------------------------------------------------------------------------------
 # script = list of commands with, in parallel, what each output line must be
 # ----------------------------------------------------------------------------------------------
+TOL = 1e-9
+
+
 class Script:
     def __init__(self):
         self.lines = []
@@ -207,10 +236,15 @@ class Script:
         self.lines.append(line)
         self.exp.append(("any",))
 
-    def vec(self, line, label, want, scale=1.0, exact=False, skip=0):
+    def num(self, line, label, want, scale=1.0):
+        """output is a single number"""
+        self.lines.append(line)
+        self.exp.append(("vec", label, [float(want)], float(scale), False, -1, TOL))
+
+    def vec(self, line, label, want, scale=1.0, exact=False, skip=0, tol=None):
         """output 'n v...' (first `skip` values ignored, e.g. the world body) must equal `want`"""
         self.lines.append(line)
-        self.exp.append(("vec", label, [float(x) for x in want], float(scale), exact, skip))
+        self.exp.append(("vec", label, [float(x) for x in want], float(scale), exact, skip, tol if tol else TOL))
 
 
 def parse_vec(s):
@@ -225,8 +259,6 @@ def parse_vec(s):
         return None
     return v
 
-
-TOL = 1e-9
 
 
 def compare(exp, got):
@@ -243,8 +275,16 @@ def compare(exp, got):
             if g != "ok":
                 return i, "machinery", g
             continue
-        _, label, want, scale, exact, skip = e
-        v = parse_vec(g)
+        _, label, want, scale, exact, skip = e[:6]
+        tol = e[6] if len(e) > 6 else TOL
+        if skip == -1:
+            skip = 0
+            try:
+                v = [float(g)]
+            except ValueError:
+                v = None
+        else:
+            v = parse_vec(g)
         if v is None:
             return i, "machinery", "unparsable output %r for %s" % (g[:200], label)
         v = v[skip:]
@@ -252,7 +292,7 @@ def compare(exp, got):
             return i, label, "length %d, specification has %d" % (len(v), len(want))
         mag = max([1.0, scale] + [abs(x) for x in want])
         for k, (a, b) in enumerate(zip(v, want)):
-            bad = (a != b) if exact else not (abs(a - b) <= TOL * mag)
+            bad = (a != b) if exact else not (abs(a - b) <= tol * mag)
             if bad or a != a:
                 return i, label, "entry %d is %r, specification says %r (vector %s vs %s)" % (
                     k, a, b, [round(x, 12) for x in v[:24]], want[:24])
@@ -291,8 +331,8 @@ def sanity(sc, ev, slot=0):
 
 
 def jac_flat(J):
-    """3 x nv published Jacobian -> row-major flat list"""
-    return flat(J)
+    """published Jacobian (sequence of nv columns, each a 3-vector) -> row-major 3 x nv flat list"""
+    return [col[r] for r in range(3) for col in J]
 
 
 def key_of(ev):
@@ -326,3 +366,105 @@ def replay_common(ctx, rp):
         ctx.violation(rp["signature"], rp["what"], rp["replay"])
     else:
         print("matches the specification now")
+
+
+def sc_cmd(sc, k):
+    """command whose output is the k-th expectation"""
+    j = 0
+    skipping = False
+    for ln in sc.lines:
+        if skipping:
+            if ln == "end":
+                skipping = False
+                j += 1
+            continue
+        if ln.startswith("model "):
+            if j == k:
+                return ln
+            skipping = True
+            continue
+        if j == k:
+            return ln
+        j += 1
+    return "?"
+
+
+def check_models(ctx, pid, exe, evs, tag, script_for, sig_of, describe=None, key=None):
+    """build, run and compare every published model; returns the per-model results"""
+    cases = [(i, script_for(ev)) for i, ev in enumerate(evs)]
+    res, r = run_cases(exe, cases)
+    for (i, mm, sc, got) in res:
+        ev = evs[i]
+        kf = key or key_of
+        ctx.case(kf(ev), nontrivial=ev["nv"] > 0,
+                 sample={"joints": features(ev), "parents": [b["par"] for b in ev["bodies"]]})
+        if mm is None:
+            ctx.trace_ok()
+            continue
+        k, label, detail = mm
+        if label == "machinery":
+            raise Machinery("harness/protocol problem in %s model %d: %s (command %r)" % (tag, i, detail, sc_cmd(sc, k)))
+        if label == "crash":
+            ctx.violation(pid + ":crash", "harness died: " + r.crash_text(), {"script": sc.lines, "line": -1})
+            break
+        what = "%s of model joints=%s%s: %s" % (label, features(ev), (" " + describe(ev)) if describe else "", detail)
+        violation(ctx, sig_of(ev, label), what, sc, k, {"model": kf(ev)})
+    return res
+
+
+def perturb_control(ctx, name, results, label, delta, index=0):
+    """negative control: adding `delta` to one expected entry of the first vector called `label` must be flagged"""
+    for (i, mm, sc, got) in results:
+        for k, e in enumerate(sc.exp):
+            if e[0] == "vec" and e[1] == label and len(e[2]) > index and mm is None:
+                bad = list(sc.exp)
+                w = list(e[2])
+                w[index] += delta * max([1.0, e[3]] + [abs(x) for x in w])       # delta is relative to the vector's scale
+                bad[k] = e[:2] + (w,) + e[3:]
+                ctx.control(name, compare(bad, got) is not None)
+                return
+    raise Machinery("negative control %r: no vector %r among the results" % (name, label))
+
+
+def run_lattice(ctx, pid, spec, mc_cfgs, sim_cfg, nsim, script_for, sig_of, need=None, describe=None, cov_cfg=None,
+                neg_cfg=None, timeout=1500):
+    """the common shape of the four checks: exhaustive lattices + simulated large lattice, all replayed"""
+    exe = harness()
+    allres = []
+    total = 0
+    for cfg in mc_cfgs:
+        res, evs = mc_models(spec, os.path.join(TLA, cfg), timeout=timeout, java_opts=FAST_JIT if ctx.quick else ())
+        ctx.tlc_ok(res, cfg[:-4])
+        if not evs:
+            raise Machinery("no finished models in the exhaustive run " + cfg)
+        total += len(evs)
+        allres += [(evs, check_models(ctx, pid, exe, evs, cfg[:-4], script_for, sig_of, describe))]
+    res2, sims = sim_models(spec, os.path.join(TLA, sim_cfg), num=nsim, depth=60, seed=ctx.seed + 7, timeout=timeout,
+                            java_opts=FAST_JIT if ctx.quick else ())
+    ctx.tlc_ok(res2, sim_cfg[:-4])
+    ctx.cov["states"] += res2.generated          # simulation reports generated states only
+    if len(sims) < nsim // 2:
+        raise Machinery("simulation produced only %d finished models" % len(sims))
+    allres += [(sims, check_models(ctx, pid, exe, sims, sim_cfg[:-4], script_for, sig_of, describe))]
+    if cov_cfg:
+        resc = tlc.run(spec, os.path.join(TLA, cov_cfg), coverage=True, timeout=timeout)
+        ctx.tlc_ok(resc, cov_cfg[:-4], need_actions=["DoPickA", "DoPickB", "DoPickC", "DoPickG", "DoKin", "DoFd", "DoVel",
+                                                      "DoMass", "DoDyn", "DoPassive", "DoEnergy", "DoFinish"])
+    if neg_cfg:
+        # negative control of the model checking itself: a deliberately false claim must be refuted by TLC
+        cfg, claim = neg_cfg
+        resn = tlc.run(spec, os.path.join(TLA, cfg), timeout=timeout, java_opts=FAST_JIT)
+        ctx.tlc_ok(resn, cfg[:-4], allow_violation=True)
+        ctx.control("TLC refutes the false claim %s" % claim, resn.violation is not None and claim in resn.violation)
+    if need:
+        # vacuity: the antecedents of the decided properties occur among the replayed models
+        allev = [ev for evs, _ in allres for ev in evs]
+        for name, pred in need.items():
+            if not any(pred(ev) for ev in allev):
+                raise Machinery("vacuity: no replayed model with " + name)
+    ctx.cov["exhaustive"] = True
+    ctx.cov["rule"] = ("every finished model of the exhaustive lattices %s (%d models) and %d simulated models of 3-4 bodies "
+                       "over the large value sets (%s) are built through mjSpec and compared field by field with the "
+                       "values published by the specification; non-trivial = at least one dof; distinct = distinct "
+                       "model+state descriptions" % (", ".join(c[:-4] for c in mc_cfgs), total, len(sims), sim_cfg[:-4]))
+    return allres
